@@ -166,6 +166,9 @@ def pv_enc(v):
         return "bF"
     if isinstance(v, (int, np.integer)):
         return "i" + big_str(v)
+    if isinstance(v, (float, np.floating)):
+        n, d = float(v).as_integer_ratio()        # the exact value of the double (inf / nan: no wire form)
+        return "f%s/%s" % (big_str(n), big_str(d))
     if isinstance(v, str):
         return "s" + v
     if isinstance(v, np.ndarray):
@@ -179,6 +182,15 @@ def pv_enc(v):
     raise TypeError("no wire form for %r" % type(v))
 
 
+def _exact_float(n, d):
+    """the double whose exact value is n / d (the wire only carries such fractions)."""
+    import fractions
+    x = float(fractions.Fraction(n, d))
+    if fractions.Fraction(x) != fractions.Fraction(n, d):
+        raise ValueError("not a double: %d/%d" % (n, d))
+    return x
+
+
 def pv_dec(tok):
     if tok == "n":
         return None
@@ -188,6 +200,9 @@ def pv_dec(tok):
         return False
     if tok.startswith("i"):
         return big_int(tok[1:])
+    if tok.startswith("f"):
+        n, d = tok[1:].split("/")
+        return _exact_float(big_int(n), big_int(d))
     if tok.startswith("s"):
         return tok[1:]
     if tok.startswith("A[") and tok.endswith("]"):
@@ -373,8 +388,23 @@ def _run_impl(line, extra=None):
         return v if st == "ok" else ("err TIMEOUT" if st == "timeout" else "err " + v)
     if op == "gen":
         # translated definitions (DswModel.Gen.*): the real function on the same wire values
-        fn = getattr(OP, t[1], None) or getattr(SW, t[1], None) or getattr(GZ, t[1])
         args = [pv_dec(x) for x in t[2:]]
+        if t[1] in ("LocalBioFilter", "DefaultBioFilter"):
+            # a constructor call: the object comes back as the dict of its attributes (lean: pySetAttr)
+            st, v = guarded(lambda: dict(vars(getattr(BF, t[1])(*args))), 60)
+            return "ok " + pv_enc(v) if st == "ok" else ("err TIMEOUT" if st == "timeout" else "err " + v)
+        if "." in t[1]:
+            # a method call: the receiver travels as the dict of its attributes
+            cname, mname = t[1].split(".")
+            obj = object.__new__(getattr(BF, cname))
+            if not isinstance(args[0], dict):
+                return "err Other"
+            obj.__dict__.update(args[0])
+            st, v = guarded(lambda: getattr(obj, mname)(*args[1:]), 60)
+            if st == "ok" and dict(vars(obj)) != args[0]:
+                return "ok " + pv_enc(v) + " ARGUMENT-MODIFIED:self"
+            return "ok " + pv_enc(v) if st == "ok" else ("err TIMEOUT" if st == "timeout" else "err " + v)
+        fn = getattr(OP, t[1], None) or getattr(SW, t[1], None) or getattr(GZ, t[1])
         if t[1] == "find_vertices":
             # the filter object travels as the table of its answers (lean: pyCallMethod)
             args[1] = _TableObject(args[1])
@@ -385,6 +415,15 @@ def _run_impl(line, extra=None):
         if st == "ok":
             return "ok " + pv_enc(v)
         return "err TIMEOUT" if st == "timeout" else "err " + v
+    if op == "fop":
+        import operator
+        fa, fb = pv_dec(t[2]), pv_dec(t[3])
+        f = {"mul": operator.mul, "sub": operator.sub, "add": operator.add, "lt": operator.lt, "le": operator.le,
+             "eq": operator.eq, "int": lambda x, _y: int(x)}[t[1]]
+        st, v = guarded(lambda: f(fa, fb), 20)
+        if st == "ok" and isinstance(v, float) and (v != v or v in (float("inf"), float("-inf"))):
+            return "err Other"                      # an infinite result is outside the fragment
+        return "ok " + pv_enc(v) if st == "ok" else ("err TIMEOUT" if st == "timeout" else "err " + v)
     if op == "shuf":
         return render(*guarded(lambda: SW.create_random_shuffles(int(t[1]), random_seed=int(t[2]))),
                       lambda tb: "".join(str(int(x)) for x in np.asarray(tb).reshape(-1)))
